@@ -1,4 +1,4 @@
-import SlicecVerif.Model.Resolve
+import SlicecVerif.Lemmas.Resolve
 
 namespace Slicec
 
@@ -33,28 +33,21 @@ theorem Table.value_unique (t : Table) (k : String) (v1 v2 : NodeInfo) (hnd : t.
     · exact ih hnd.2 h1' h2'
 
 theorem Table.find_eq_of_mem (t : Table) (k : String) (v : NodeInfo) (hnd : t.keys.Nodup) (hm : (k, v) ∈ t) :
-    t.find k = some v := by
-  unfold Table.find
-  have : t.reverse.find? (fun e => e.1 == k) = some (k, v) := by
-    apply find?_unique
-    · simpa using hm
-    · simp
-    · intro y hy hyk
-      have hy' : y ∈ t := by simpa using hy
-      obtain ⟨yk, yv⟩ := y
-      have hk : yk = k := by simpa using hyk
-      subst hk
-      exact Table.value_unique t yk yv v hnd hy' hm
-  rw [this]
+    t.find k = some v :=
+  Table.find_of_nodup t hnd k v hm
 
 theorem Table.find_none_of_not_mem (t : Table) (k : String) (h : k ∉ t.keys) : t.find k = none := by
-  unfold Table.find
-  have : t.reverse.find? (fun e => e.1 == k) = none := by
-    rw [List.find?_eq_none]
-    intro e he hk
-    have he' : e ∈ t := by simpa using he
-    exact h (List.mem_map.mpr ⟨e, he', by simpa using hk⟩)
-  rw [this]
+  induction t with
+  | nil => rfl
+  | cons e rest ih =>
+    simp only [Table.keys, List.map_cons, List.mem_cons, not_or] at h
+    simp only [Table.find]
+    rw [ih h.2]
+    have : ¬ (e.1 == k) = true := by
+      intro hk
+      have hek : e.1 = k := by simpa using hk
+      exact h.1 hek.symm
+    simp [this]
 
 /-- with pairwise distinct keys the table is a finite map: lookups do not depend on insertion order -/
 theorem Table.find_perm (t1 t2 : Table) (hp : t1.Perm t2) (hnd : t1.keys.Nodup) (k : String) :
@@ -74,11 +67,17 @@ theorem firstSome_congr {α β} (f g : α → Option β) (l : List α) (h : ∀ 
   | nil => rfl
   | cons x xs ih => simp [firstSome, h x, ih]
 
+theorem scopeLoop_perm (t1 t2 : Table) (hp : t1.Perm t2) (hnd : t1.keys.Nodup) (id : String) (m : List String) :
+    scopeLoop t1 id m = scopeLoop t2 id m := by
+  induction m using scopesOutward.induct with
+  | case1 => simp [scopeLoop]
+  | case2 a m ih =>
+    rw [scopeLoop, scopeLoop, Table.find_perm t1 t2 hp hnd, ih]
+
 theorem findNodeWithScope_perm (t1 t2 : Table) (hp : t1.Perm t2) (hnd : t1.keys.Nodup) (id scope : String) :
     findNodeWithScope t1 id scope = findNodeWithScope t2 id scope := by
   unfold findNodeWithScope
-  rw [firstSome_congr _ (fun p => t2.find ("::".intercalate p ++ "::" ++ id)) _ (fun p => Table.find_perm t1 t2 hp hnd _)]
-  simp only [Table.find_perm t1 t2 hp hnd]
+  simp only [Table.find_perm t1 t2 hp hnd, scopeLoop_perm t1 t2 hp hnd]
 
 theorem walkAlias_perm (t1 t2 : Table) (hp : t1.Perm t2) (hnd : t1.keys.Nodup) (fuel : Nat) :
     ∀ chain attrs cur, walkAlias t1 fuel chain attrs cur = walkAlias t2 fuel chain attrs cur := by
@@ -105,8 +104,8 @@ theorem walkAlias_perm (t1 t2 : Table) (hp : t1.Perm t2) (hnd : t1.keys.Nodup) (
         | result s f => rfl
 
 theorem numAliases_perm (t1 t2 : Table) (hp : t1.Perm t2) : numAliases t1 = numAliases t2 := by
-  unfold numAliases
-  exact (hp.filter _).length_eq
+  unfold numAliases aliasKeys
+  exact ((hp.filter _).map _).length_eq
 
 theorem resolveNamed_perm (t1 t2 : Table) (hp : t1.Perm t2) (hnd : t1.keys.Nodup) (w : Want) (id scope : String) :
     resolveNamed t1 w id scope = resolveNamed t2 w id scope := by
